@@ -1,9 +1,485 @@
-/- C20 — executable model (core Lean only).  Stub. -/
+/-
+C20 — executable model of the argument checks ("guards") of classy_blocks' constructors and
+mutators, as they are coded *after* the repairs recorded in findings/C20.json, together with the
+documented preconditions (`pre`) they are meant to enforce.  Core Lean only.
+
+Every guarded call of the catalogue is a constructor of `Call`; `run tol call` mirrors the sequence
+of `if …: raise X` statements of the Python code (first failing check wins; the exception class is
+part of the outcome; `"*"` stands for "rejected further down by code that is not modelled", e.g. a
+NaN that scipy refuses).  `pre tol call` is the documented two-sided condition, written
+independently of the code (`0 ≤ c ∧ c ≤ 3`, `-tol ≤ d ∧ d ≤ tol`, blockMesh's own edge convention).
+
+Two small state machines are modelled as well: clamps/links on the optimiser's grid
+(optimize/grid.py, optimize/junction.py) and the assembled flag of `Mesh` (mesh.py).
+-/
 import CBV.Model.Common
 import CBV.Gen.Tables
 
 namespace CBV.C20
 
-def handle (_op : String) (_args : List String) : Option String := none
+/-- outcome of a guarded call: accepted, or rejected with an exception class -/
+inductive Out where
+  | accept
+  | reject (cls : String)
+  deriving DecidableEq, Repr, Inhabited
+
+def Out.isReject : Out → Bool
+  | .accept => false
+  | .reject _ => true
+
+def Out.toStr : Out → String
+  | .accept => "accept"
+  | .reject c => "reject:" ++ c
+
+/-- `abs(x)` as numpy / python compute it -/
+def absR (x : Rat) : Rat := if x < 0 then -x else x
+
+/-- a python sequence of `if cond: raise Cls` statements: the first failing check wins -/
+def checks : List (Bool × String) → Out
+  | [] => .accept
+  | (b, cls) :: rest => if b then .reject cls else checks rest
+
+/-! ### look-ups in the generated tables -/
+
+/-- `c2 in Frame().beams[c1]`: `Frame.__init__` enters every pair of AXIS_PAIRS in both directions -/
+def frameHas (c1 c2 : Nat) : Bool :=
+  CBV.Gen.axisPairs.any (fun ax => ax.any (fun p => (p.1 == c1 && p.2 == c2) || (p.1 == c2 && p.2 == c1)))
+
+/-- `{c1, c2} in Frame.valid_pairs` (sets made from EDGE_PAIRS) -/
+def validPair (c1 c2 : Int) : Bool :=
+  CBV.Gen.edgePairs.any (fun p =>
+    (((p.1 : Nat) : Int) == c1 && ((p.2 : Nat) : Int) == c2) || (((p.1 : Nat) : Int) == c2 && ((p.2 : Nat) : Int) == c1))
+
+/-- `tools.edge_map[c1][c2]` holds an `EdgeLocation` (and not `None`) -/
+def edgeMapHas (c1 c2 : Nat) : Bool :=
+  CBV.Gen.edgeLoc.any (fun e => e.1 == c1 && e.2.1 == c2)
+
+/-! ### the blockMesh hexahedron convention (specification side, independent of the tables) -/
+
+/-- corner `c` of the hexahedron has local coordinates (x, y, z) ∈ {0,1}³ -/
+def coord (c : Nat) : Bool × Bool × Bool :=
+  (c % 4 == 1 || c % 4 == 2, c % 4 == 2 || c % 4 == 3, c ≥ 4)
+
+/-- two corners are joined by an edge iff they differ in exactly one coordinate -/
+def isEdge (c1 c2 : Nat) : Bool :=
+  let a := coord c1; let b := coord c2
+  ((if a.1 != b.1 then 1 else 0) + (if a.2.1 != b.2.1 then 1 else 0) + (if a.2.2 != b.2.2 then 1 else 0)) == 1
+
+def inRange (lo hi : Int) (c : Int) : Bool := decide (lo ≤ c) && decide (c ≤ hi)
+
+/-- both indexes are corners (0…7) and the corners are joined by an edge of the hexahedron -/
+def cornerPairOk (c1 c2 : Int) : Bool :=
+  inRange 0 7 c1 && inRange 0 7 c2 && isEdge c1.toNat c2.toNat
+
+def sideNames : List String := ["bottom", "top", "left", "right", "front", "back"]
+
+/-! ### labels of a `Project` edge -/
+
+/-- `Project.add_label`: `for l in new: if l not in self.label: self.label.append(l)` -/
+def mergeLabels (have_ new : List Nat) : List Nat :=
+  new.foldl (fun acc l => if acc.contains l then acc else acc ++ [l]) have_
+
+/-! ### geometry helpers -/
+
+/-- `np.dot(p1 - p0, np.cross(p3 - p0, p2 - p0))` of `Face.__init__(check_coplanar=True)` -/
+def triple (p0 p1 p2 p3 : V3) : Rat := V3.dot (p1 - p0) (V3.cross (p3 - p0) (p2 - p0))
+
+def isZero (v : V3) : Bool := decide (v.x = 0) && decide (v.y = 0) && decide (v.z = 0)
+
+/-! ### the catalogue of guarded calls -/
+
+inductive Call where
+  /-- `Face(points)` with `points` an n × m array (n rows of m coordinates) -/
+  | faceShape (n m : Nat)
+  /-- `Face(four points, edges)` with a list of k edge data -/
+  | faceEdges (k : Nat)
+  /-- `Face(points, check_coplanar=True)` -/
+  | faceCoplanar (p0 p1 p2 p3 : V3)
+  /-- `Face.add_edge(corner, …)` -/
+  | faceAddEdge (c : Int)
+  /-- `Face.project_edge(corner, label)` on a face without projected edges -/
+  | faceProjectEdge (c : Int)
+  /-- `Face.remove_edges(corners)` -/
+  | faceRemoveEdges (cs : List Int)
+  /-- `Point(position)` with `np.shape(position) = dims` -/
+  | pointShape (dims : List Nat)
+  /-- `Array(points)` with an n × m array -/
+  | arrayShape (n m : Nat)
+  /-- `Side(orient, vertices)` with k vertices -/
+  | sideVertices (k : Nat)
+  /-- `Operation.add_side_edge(corner, …)` -/
+  | opAddSideEdge (c : Int)
+  /-- `Operation.project_corner(corner, label)` -/
+  | opProjectCorner (c : Int)
+  /-- `Operation.project_edge(corner_1, corner_2, label)` -/
+  | opProjectEdge (c1 c2 : Int)
+  /-- `Operation.chop(axis, …)` -/
+  | opChop (axis : Int)
+  /-- `Operation.unchop(axis)` -/
+  | opUnchop (axis : Int)
+  /-- `Operation.set_patch(side, …)` / `Operation.project_side(side, …)` -/
+  | opSide (side : String)
+  /-- `Operation.from_series(faces)` with k faces -/
+  | fromSeries (k : Nat)
+  /-- `Block.add_edge(corner_1, corner_2, edge)` -/
+  | blockAddEdge (c1 c2 : Int)
+  /-- `Frame.add_beam(corner_1, corner_2, beam)` -/
+  | frameAddBeam (c1 c2 : Int)
+  /-- `Project(labels)` with a list of n labels -/
+  | projectLabels (n : Nat)
+  /-- `Project(have).add_label(new)`; labels are numbered -/
+  | projectAddLabel (have_ new : List Nat)
+  /-- `Grading.add_chop(Chop(length_ratio=r))` -/
+  | lengthRatio (r : Rat)
+  /-- `Annulus(center, outer_radius_point, normal, inner_radius, n_segments)` (also `ExtrudedRing`) -/
+  | annulus (c p n : V3) (rin : Rat) (nseg : Int)
+  /-- `Cylinder / SemiCylinder(axis_point_1, axis_point_2, radius_point_1)` -/
+  | cylinder (a1 a2 rp : V3)
+  /-- `Frustum(axis_point_1, axis_point_2, radius_point_1, radius_2)` -/
+  | frustum (a1 a2 rp : V3)
+  /-- `Cylinder.chain` (kind 0), `Frustum.chain` (1), `ExtrudedRing.chain` (2) with the given length -/
+  | chain (kind : Nat) (len : Rat)
+  /-- `ExtrudedRing.contract(source, inner_radius)` where the source's inner radius is `rsrc` -/
+  | ringContract (rnew rsrc : Rat)
+  /-- `Cylinder.fill(ring)` where the ring has `nseg` segments -/
+  | cylinderFill (nseg : Nat)
+  /-- `LoftedShape(sketch_1, sketch_2, sketch_mid)` with the given numbers of faces -/
+  | loftedShape (n1 n2 : Nat) (mids : List Nat)
+  /-- `Stack.get_slice(axis, index)` on a stack of `n2` shapes made from a sketch whose grid has
+      `n1` rows of `n0` faces -/
+  | stackSlice (axis idx : Int) (n0 n1 n2 : Nat)
+  deriving Repr
+
+def chainClass : Nat → String
+  | 0 => "CylinderCreationError"
+  | 1 => "FrustumCreationError"
+  | _ => "ExtrudedRingCreationError"
+
+/-- `Face.add_edge` / `Face.project_edge`: `if corner < 0 or corner > 3: raise FaceCreationError` -/
+def faceCornerBad (c : Int) : Bool := decide (c < 0) || decide (c > 3)
+
+/-- first corner of the list that `add_edge` refuses -/
+def removeEdgesRun : List Int → Out
+  | [] => .accept
+  | c :: cs => if faceCornerBad c then .reject "FaceCreationError" else removeEdgesRun cs
+
+/-- The guards as coded (after the repairs), `tol` = `constants.TOL`. -/
+def run (tol : Rat) : Call → Out
+  | .faceShape n m =>
+      -- `np.shape([]) = (0,)`: building the error message indexes `points_shape[1]`
+      checks [(n == 0, "IndexError"), (!(n == 4 && m == 3), "FaceCreationError")]
+  | .faceEdges k => checks [(k != 4, "FaceCreationError")]
+  | .faceCoplanar p0 p1 p2 p3 => checks [(decide (absR (triple p0 p1 p2 p3) > tol), "FaceCreationError")]
+  | .faceAddEdge c => checks [(faceCornerBad c, "FaceCreationError")]
+  | .faceProjectEdge c => checks [(faceCornerBad c, "FaceCreationError")]
+  | .faceRemoveEdges cs => removeEdgesRun cs
+  | .pointShape dims => checks [(dims != [3], "PointCreationError")]
+  | .arrayShape n m =>
+      checks [(n == 0, "IndexError"), (m != 3, "ArrayCreationError"), (decide (n ≤ 1), "ArrayCreationError")]
+  | .sideVertices k => checks [(k != 8, "SideCreationError")]
+  | .opAddSideEdge c => checks [(decide (c < 0) || decide (c > 3), "EdgeCreationError")]
+  | .opProjectCorner c => checks [(decide (c < 0) || decide (c > 7), "ValueError")]
+  | .opProjectEdge c1 c2 =>
+      checks [(!(decide (0 ≤ c1) && decide (c1 < 8) && decide (0 ≤ c2) && decide (c2 < 8)), "ValueError"),
+              (!(frameHas c1.toNat c2.toNat), "KeyError"),
+              (!(edgeMapHas c1.toNat c2.toNat), "AttributeError")]
+  | .opChop axis => checks [(!(axis == 0 || axis == 1 || axis == 2), "KeyError")]
+  | .opUnchop axis => checks [(!(axis == 0 || axis == 1 || axis == 2), "KeyError")]
+  | .opSide side =>
+      checks [(!(side == "bottom" || side == "top" || CBV.Gen.sidesMap.contains side), "RuntimeError")]
+  | .fromSeries k => checks [(decide (k < 2), "ValueError")]
+  | .blockAddEdge c1 c2 =>
+      checks [(!(decide (0 ≤ c1) && decide (c1 < 8) && decide (0 ≤ c2) && decide (c2 < 8)), "ValueError"),
+              (!(frameHas c1.toNat c2.toNat), "KeyError")]
+  | .frameAddBeam c1 c2 => checks [(!(validPair c1 c2), "ValueError")]
+  | .projectLabels n => checks [(!(decide (0 < n) && decide (n < 3)), "EdgeCreationError")]
+  | .projectAddLabel h new =>
+      let n := (mergeLabels h new).length
+      checks [(!(decide (0 < n) && decide (n < 3)), "EdgeCreationError")]
+  | .lengthRatio r => checks [(!(decide (0 < r) && decide (r ≤ 1)), "ValueError")]
+  | .annulus c p n rin nseg =>
+      let v := p - c
+      checks [(decide (rin < 0), "AnnulusCreationError"),
+              (nseg == 0, "ZeroDivisionError"),                     -- 2π / n_segments
+              (isZero n || isZero v, "*"),                          -- unit_vector of a zero vector: NaN
+              (decide (nseg < 0), "IndexError"),                    -- no faces at all
+              -- one face only: `self.center` is the centre of that face, both "radii" are half its width
+              (nseg == 1, "AnnulusCreationError"),
+              -- `outer_radius - inner_radius < TOL`, both radii being norms; in squared form
+              (decide (V3.norm2 v < (rin + tol) * (rin + tol)), "AnnulusCreationError"),
+              -- `abs(dot(unit(normal), v)) > TOL`, in squared form
+              (decide (V3.dot n v * V3.dot n v > tol * tol * V3.norm2 n), "AnnulusCreationError")]
+  | .cylinder a1 a2 rp =>
+      checks [(decide (absR (V3.dot (a2 - a1) (rp - a1)) > tol), "CylinderCreationError"),
+              (isZero (a2 - a1) || isZero (rp - a1), "*")]
+  | .frustum a1 a2 rp =>
+      checks [(decide (absR (V3.dot (a2 - a1) (rp - a1)) > tol), "FrustumCreationError"),
+              (isZero (a2 - a1) || isZero (rp - a1), "*")]
+  | .chain kind len =>
+      checks [(decide (len < 0), chainClass kind),
+              (decide (len = 0), "*")]                              -- zero axis further down
+  | .ringContract rnew rsrc =>
+      checks [(decide (rnew ≤ 0), "ExtrudedRingCreationError"),
+              (decide (rsrc - rnew < tol), "ExtrudedRingCreationError")]
+  | .cylinderFill nseg => checks [(nseg != 8, "CylinderCreationError")]
+  | .loftedShape n1 n2 mids =>
+      checks [(n1 != n2, "ShapeCreationError"), (mids.any (· != n1), "ShapeCreationError")]
+  | .stackSlice axis idx n0 n1 n2 =>
+      checks [(!(axis == 0 || axis == 1 || axis == 2), "ValueError"),
+              (decide (idx < 0), "ValueError"),
+              (axis == 2 && decide ((n2 : Int) ≤ idx), "IndexError"),
+              (axis == 0 && decide (0 < n2) && decide (0 < n1) && decide ((n0 : Int) ≤ idx), "IndexError"),
+              (axis == 1 && decide (0 < n2) && decide ((n1 : Int) ≤ idx), "IndexError")]
+
+/-- The documented preconditions, each written as the two-sided / symmetric condition it is. -/
+def pre (tol : Rat) : Call → Bool
+  | .faceShape n m => n == 4 && m == 3
+  | .faceEdges k => k == 4
+  | .faceCoplanar p0 p1 p2 p3 => decide (-tol ≤ triple p0 p1 p2 p3) && decide (triple p0 p1 p2 p3 ≤ tol)
+  | .faceAddEdge c => inRange 0 3 c
+  | .faceProjectEdge c => inRange 0 3 c
+  | .faceRemoveEdges cs => cs.all (inRange 0 3)
+  | .pointShape dims => dims == [3]
+  | .arrayShape n m => m == 3 && decide (2 ≤ n)
+  | .sideVertices k => k == 8
+  | .opAddSideEdge c => inRange 0 3 c
+  | .opProjectCorner c => inRange 0 7 c
+  | .opProjectEdge c1 c2 => cornerPairOk c1 c2
+  | .opChop axis => inRange 0 2 axis
+  | .opUnchop axis => inRange 0 2 axis
+  | .opSide side => sideNames.contains side
+  | .fromSeries k => decide (2 ≤ k)
+  | .blockAddEdge c1 c2 => cornerPairOk c1 c2
+  | .frameAddBeam c1 c2 => cornerPairOk c1 c2
+  | .projectLabels n => decide (1 ≤ n) && decide (n ≤ 2)
+  | .projectAddLabel h new => decide (1 ≤ (mergeLabels h new).length) && decide ((mergeLabels h new).length ≤ 2)
+  | .lengthRatio r => decide (0 < r) && decide (r ≤ 1)
+  | .annulus c p n rin nseg =>
+      let v := p - c
+      !(isZero n) && !(isZero v) && decide (2 ≤ nseg) && decide (0 ≤ rin) &&
+        -- inner radius below the outer one by at least the tolerance: (rin + tol)² ≤ |v|²
+        decide ((rin + tol) * (rin + tol) ≤ V3.norm2 v) &&
+        -- |n̂ · v| ≤ tol, two-sided, with |n| cleared: (n·v)² ≤ tol² |n|²
+        decide (V3.dot n v * V3.dot n v ≤ tol * tol * V3.norm2 n)
+  | .cylinder a1 a2 rp =>
+      !(isZero (a2 - a1)) && !(isZero (rp - a1)) &&
+        decide (-tol ≤ V3.dot (a2 - a1) (rp - a1)) && decide (V3.dot (a2 - a1) (rp - a1) ≤ tol)
+  | .frustum a1 a2 rp =>
+      !(isZero (a2 - a1)) && !(isZero (rp - a1)) &&
+        decide (-tol ≤ V3.dot (a2 - a1) (rp - a1)) && decide (V3.dot (a2 - a1) (rp - a1) ≤ tol)
+  | .chain _ len => decide (0 < len)
+  | .ringContract rnew rsrc => decide (0 < rnew) && decide (rnew + tol ≤ rsrc)
+  | .cylinderFill nseg => nseg == 8
+  | .loftedShape n1 n2 mids => n1 == n2 && mids.all (· == n1)
+  | .stackSlice axis idx n0 n1 n2 =>
+      inRange 0 2 axis && decide (0 ≤ idx) &&
+        decide (idx < (if axis = 0 then (n0 : Int) else if axis = 1 then (n1 : Int) else (n2 : Int)))
+
+/-- side conditions under which a call of the catalogue is meaningful at all (a stack holds at least
+    one shape and its sketch at least one row; a `Project` that receives a label has 1 or 2 distinct ones) -/
+def wf : Call → Bool
+  | .stackSlice _ _ _ n1 n2 => decide (0 < n1) && decide (0 < n2)
+  | .projectAddLabel h _ => decide (0 < h.length) && decide (h.length ≤ 2)
+  | _ => true
+
+/-! ### clamps and links on the optimiser's grid (optimize/grid.py, junction.py) -/
+
+/-- `f.norm(a - b) < TOL`, squared -/
+def near (tol : Rat) (a b : V3) : Bool := decide (V3.norm2 (a - b) < tol * tol)
+
+/-- index of the first junction within `tol` of the position (`GridBase.add_clamp` returns at the first hit) -/
+def firstNear (tol : Rat) (pos : V3) : List V3 → Nat → Option Nat
+  | [], _ => none
+  | p :: ps, i => if near tol p pos then some i else firstNear tol pos ps (i + 1)
+
+/-- `GridBase.add_clamp` + `Junction.add_clamp`; the state is the list of clamped junction indexes -/
+def addClamp (tol : Rat) (pts : List V3) (clamped : List Nat) (pos : V3) : Out × List Nat :=
+  match firstNear tol pos pts 0 with
+  | none => (.reject "NoJunctionError", clamped)
+  | some i => if clamped.contains i then (.reject "ClampExistsError", clamped) else (.accept, i :: clamped)
+
+/-- the loop of `GridBase.add_link`: the last junction near the leader, and the last junction that is
+    *not* near the leader (`continue`) but near the follower -/
+def linkScan (tol : Rat) (leader follower : V3) : List V3 → Nat → Option Nat → Option Nat → Option Nat × Option Nat
+  | [], _, li, fi => (li, fi)
+  | p :: ps, i, li, fi =>
+      if near tol leader p then linkScan tol leader follower ps (i + 1) (some i) fi
+      else if near tol follower p then linkScan tol leader follower ps (i + 1) li (some i)
+      else linkScan tol leader follower ps (i + 1) li fi
+
+def addLink (tol : Rat) (pts : List V3) (leader follower : V3) : Out :=
+  match linkScan tol leader follower pts 0 none none with
+  | (none, _) => .reject "InvalidLinkError"
+  | (some _, none) => .reject "InvalidLinkError"
+  | (some l, some f) => if l = f then .reject "InvalidLinkError" else .accept
+
+inductive GridOp where
+  | clamp (pos : V3)
+  | link (leader follower : V3)
+  deriving Repr
+
+def gridRun (tol : Rat) (pts : List V3) : List GridOp → List Nat → List Out
+  | [], _ => []
+  | .clamp pos :: ops, st =>
+      let r := addClamp tol pts st pos
+      r.1 :: gridRun tol pts ops r.2
+  | .link l f :: ops, st => addLink tol pts l f :: gridRun tol pts ops st
+
+/-! ### the assembled flag of `Mesh` (mesh.py) -/
+
+inductive MeshOp where
+  | add | assemble | clear | grade | backport
+  deriving DecidableEq, Repr
+
+/-- number of entities in the depot, `is_assembled` (vertex list not empty) -/
+structure MeshSt where
+  depot : Nat := 0
+  assembled : Bool := false
+  deriving DecidableEq, Repr
+
+def meshStep (s : MeshSt) : MeshOp → Out × MeshSt
+  | .add => (.accept, { s with depot := s.depot + 1 })
+  | .assemble => (.accept, { s with assembled := s.assembled || decide (0 < s.depot) })
+  | .clear => (.accept, { s with assembled := false })
+  | .grade => (if s.assembled then .accept else .reject "RuntimeError", s)
+  | .backport =>
+      -- `clear(); assemble()` when assembled
+      if s.assembled then (.accept, { s with assembled := decide (0 < s.depot) }) else (.reject "RuntimeError", s)
+
+def meshRun : MeshSt → List MeshOp → List Out
+  | _, [] => []
+  | s, op :: ops => (meshStep s op).1 :: meshRun (meshStep s op).2 ops
+
+/-! ### specification-side definitions used by the theorems about histories -/
+
+/-- the clamped vertices after a history of calls -/
+def gridState (tol : Rat) (pts : List V3) : List GridOp → List Nat → List Nat
+  | [], st => st
+  | .clamp pos :: ops, st => gridState tol pts ops (addClamp tol pts st pos).2
+  | .link _ _ :: ops, st => gridState tol pts ops st
+
+/-- state after a history given most-recent-first -/
+def stateRev : List MeshOp → MeshSt
+  | [] => {}
+  | op :: older => (meshStep (stateRev older) op).2
+
+/-- "is the mesh assembled?" read off the history alone, looking back from now: the most recent `clear` or
+    `assemble` decides — after a `clear` it is not; after an `assemble` it is iff it already was or something had
+    been added before; `add`, `grade`, `backport` do not change it -/
+def assembledSpec : List MeshOp → Bool
+  | [] => false
+  | .clear :: _ => false
+  | .assemble :: older => assembledSpec older || older.contains .add
+  | _ :: older => assembledSpec older
+
+def meshFold : MeshSt → List MeshOp → MeshSt
+  | s, [] => s
+  | s, op :: ops => meshFold (meshStep s op).2 ops
+
+/-! ### Line protocol
+
+`c20.call <name> <rationals [a,b,…]> <strings [s,…]>` → `accept|reject:<Class> pre|nopre`
+`c20.grid <points p;p;…> <ops clamp:p | link:p:p ;…>`  → outcomes joined by `,`
+`c20.mesh <ops add;assemble;…>`                         → outcomes joined by `,`
+-/
+
+def tolGen : Rat := mkRat CBV.Gen.c20Tol.1 CBV.Gen.c20Tol.2
+
+def natOf? (q : Rat) : Option Nat := if q.den = 1 ∧ 0 ≤ q.num then some q.num.toNat else none
+def intOf? (q : Rat) : Option Int := if q.den = 1 then some q.num else none
+
+def v3Of : Rat → Rat → Rat → V3 := fun a b c => ⟨a, b, c⟩
+
+/-- decodes a call from its name, its rational arguments and its string arguments -/
+def callOf (name : String) (r : List Rat) (s : List String) : Option Call :=
+  match name, r, s with
+  | "faceShape", [n, m], [] => do some (.faceShape (← natOf? n) (← natOf? m))
+  | "faceEdges", [k], [] => do some (.faceEdges (← natOf? k))
+  | "faceCoplanar", [a, b, c, d, e, f, g, h, i, j, k, l], [] =>
+      some (.faceCoplanar (v3Of a b c) (v3Of d e f) (v3Of g h i) (v3Of j k l))
+  | "faceAddEdge", [c], [] => do some (.faceAddEdge (← intOf? c))
+  | "faceProjectEdge", [c], [] => do some (.faceProjectEdge (← intOf? c))
+  | "faceRemoveEdges", cs, [] => do some (.faceRemoveEdges (← cs.mapM intOf?))
+  | "pointShape", dims, [] => do some (.pointShape (← dims.mapM natOf?))
+  | "arrayShape", [n, m], [] => do some (.arrayShape (← natOf? n) (← natOf? m))
+  | "sideVertices", [k], [] => do some (.sideVertices (← natOf? k))
+  | "opAddSideEdge", [c], [] => do some (.opAddSideEdge (← intOf? c))
+  | "opProjectCorner", [c], [] => do some (.opProjectCorner (← intOf? c))
+  | "opProjectEdge", [a, b], [] => do some (.opProjectEdge (← intOf? a) (← intOf? b))
+  | "opChop", [a], [] => do some (.opChop (← intOf? a))
+  | "opUnchop", [a], [] => do some (.opUnchop (← intOf? a))
+  | "opSide", [], [side] => some (.opSide side)
+  | "fromSeries", [k], [] => do some (.fromSeries (← natOf? k))
+  | "blockAddEdge", [a, b], [] => do some (.blockAddEdge (← intOf? a) (← intOf? b))
+  | "frameAddBeam", [a, b], [] => do some (.frameAddBeam (← intOf? a) (← intOf? b))
+  | "projectLabels", [n], [] => do some (.projectLabels (← natOf? n))
+  | "projectAddLabel", nh :: rest, [] => do
+      let nh ← natOf? nh
+      let ls ← rest.mapM natOf?
+      if nh ≤ ls.length then some (.projectAddLabel (ls.take nh) (ls.drop nh)) else none
+  | "lengthRatio", [x], [] => some (.lengthRatio x)
+  | "annulus", [a, b, c, d, e, f, g, h, i, rin, nseg], [] => do
+      some (.annulus (v3Of a b c) (v3Of d e f) (v3Of g h i) rin (← intOf? nseg))
+  | "cylinder", [a, b, c, d, e, f, g, h, i], [] => some (.cylinder (v3Of a b c) (v3Of d e f) (v3Of g h i))
+  | "frustum", [a, b, c, d, e, f, g, h, i], [] => some (.frustum (v3Of a b c) (v3Of d e f) (v3Of g h i))
+  | "chain", [kind, len], [] => do
+      let k ← natOf? kind
+      if k < 3 then some (.chain k len) else none
+  | "ringContract", [a, b], [] => some (.ringContract a b)
+  | "cylinderFill", [n], [] => do some (.cylinderFill (← natOf? n))
+  | "loftedShape", n1 :: n2 :: mids, [] => do
+      some (.loftedShape (← natOf? n1) (← natOf? n2) (← mids.mapM natOf?))
+  | "stackSlice", [axis, idx, n0, n1, n2], [] => do
+      some (.stackSlice (← intOf? axis) (← intOf? idx) (← natOf? n0) (← natOf? n1) (← natOf? n2))
+  | _, _, _ => none
+
+def handleCall (args : List String) : Option String :=
+  match args with
+  | [name, rs, ss] => do
+      let r ← parseRatList? rs
+      let s ← parseList? ss
+      let c ← callOf name r s
+      if wf c then
+        some ((run tolGen c).toStr ++ (if pre tolGen c then " pre" else " nopre"))
+      else none
+  | _ => none
+
+def showOuts (os : List Out) : String := ",".intercalate (os.map Out.toStr)
+
+def parseGridOp? (s : String) : Option GridOp :=
+  match s.splitOn ":" with
+  | ["clamp", p] => do some (.clamp (← parseV3? p))
+  | ["link", l, f] => do some (.link (← parseV3? l) (← parseV3? f))
+  | _ => none
+
+def handleGrid (args : List String) : Option String :=
+  match args with
+  | [pts, ops] => do
+      let pts ← (pts.splitOn ";").mapM parseV3?
+      let ops ← (ops.splitOn ";").mapM parseGridOp?
+      some (showOuts (gridRun tolGen pts ops []))
+  | _ => none
+
+def parseMeshOp? : String → Option MeshOp
+  | "add" => some .add
+  | "assemble" => some .assemble
+  | "clear" => some .clear
+  | "grade" => some .grade
+  | "backport" => some .backport
+  | _ => none
+
+def handleMesh (args : List String) : Option String :=
+  match args with
+  | [ops] => do
+      let ops ← (ops.splitOn ";").mapM parseMeshOp?
+      some (showOuts (meshRun {} ops))
+  | _ => none
+
+def handle (op : String) (args : List String) : Option String :=
+  match op with
+  | "c20.call" => handleCall args
+  | "c20.grid" => handleGrid args
+  | "c20.mesh" => handleMesh args
+  | _ => none
 
 end CBV.C20
